@@ -412,3 +412,30 @@ func (g *BadA1Method) BindLocalStream(_ *interceptor.StreamInfo, w interceptor.R
 	obj := &BadA1MethodObj{next: w}
 	return interceptor.RTPWriterFunc(obj.write)
 }
+
+// ---- A5 ---------------------------------------------------------------------------------------------------------------
+
+type fxAttrs map[int]any
+
+func (a fxAttrs) Put(k int, v any) { a[k] = v }
+
+// GoodA5Read tests the attributes the wrapped reader returned.
+func GoodA5Read(r interceptor.RTPReader, b []byte, in fxAttrs) int {
+	n, _, _ := r.Read(b, nil)
+	attr := in
+	if attr == nil {
+		attr = make(fxAttrs)
+	}
+	attr.Put(1, n)
+	return n
+}
+
+// BadA5Read tests the wrong variable: attr may still be nil.
+func BadA5Read(r interceptor.RTPReader, b []byte, in, attr fxAttrs) int {
+	n, _, _ := r.Read(b, nil)
+	if in == nil {
+		attr = make(fxAttrs)
+	}
+	attr.Put(1, n)
+	return n
+}
